@@ -90,8 +90,9 @@ theorem fromStrWith_np (pinned : Bool) (s : Text) : (Term.fromStrWith pinned s).
   · exact parseTerm_np _ _ _
   · intro v
     simp only []
-    split <;> rfl
-
+    split
+    · rfl
+    · split <;> rfl
 
 theorem asIdent_np (t : Term) : t.asIdent.isPanic = false := by
   unfold Term.asIdent; split <;> rfl
